@@ -365,8 +365,23 @@ func runC07(r *Run) {
 		}
 		return fs
 	}
-	for _, ln := range []int{2, 3, 5, 99, 100, 101, 150} {
+	for _, ln := range []int{2, 3, 5, 98, 99, 100, 101, 102, 103, 150} {
 		emit(cfg{files: chain(ln, ""), page: "page.vuego", data: [][2]string{{"b", "fill-b"}}, tags: map[string]string{"chain": fmt.Sprint(ln)}})
+	}
+	// the same lengths entered through the default layout: the page names none, layouts/base.vuego begins the chain
+	for _, ln := range []int{3, 4, 98, 99, 100, 101, 102, 103} {
+		fs := chain(ln, "")
+		for i := range fs {
+			switch fs[i].name {
+			case "page.vuego":
+				fs[i].fm = [][2]string{{"a", "page-a"}}
+			case "layouts/c1.vuego":
+				fs[i].name = "layouts/base.vuego"
+			}
+		}
+		emit(cfg{files: fs, page: "page.vuego", data: [][2]string{{"b", "fill-b"}}, tags: map[string]string{"chain-through-base": fmt.Sprint(ln)}})
+		// ... and named by the data instead of the page
+		emit(cfg{files: fs, page: "page.vuego", data: [][2]string{{"layout", "base"}}, tags: map[string]string{"chain-through-base": fmt.Sprint(ln)}})
 	}
 	for cyc := 1; cyc <= 4; cyc++ { // the last link points back to c1 / itself
 		for _, ln := range []int{2, 3, 4, 5} {
